@@ -2,8 +2,8 @@
    core/stat/base and core/base (Gen.Leaf_gen, written by translator/leaf on every run) computes
    the same function as the hand-written model the C08 theorems are about - for ALL inputs in the
    Go types' ranges, not on samples. *)
-From Coq Require Import ZArith Bool Lia.
-From SG Require Import Base.Prelude Base.GoInt Model.LeapArray.
+From Coq Require Import ZArith Bool Lia Floats.
+From SG Require Import Base.Prelude Base.GoInt Base.GoFloat Model.LeapArray Model.StatNode.
 From Gen Require Import Leaf_gen.
 #[local] Open Scope Z_scope.
 Transparent two32 two63 two64 two31.
@@ -75,8 +75,59 @@ Proof.
   cbn; intuition (try discriminate; try lia).
 Qed.
 
+(* ---- round 3: the float / integer arithmetic of the statistic-node getters -------------------
+   The window sums, maxima and minima the getters start from are the model's view_sum /
+   view_max_single / view_min_rt (whose equality with the event reference is the C08 theorems);
+   what is regenerated here is everything the Go getters compute FROM them. *)
+
+(* (n *BaseStatNode) GetMaxAvg(event): n.sampleCount / n.intervalMs are the view's geometry *)
+Lemma node_GetMaxAvg_ok x now ev :
+  node_GetMaxAvg (view_max_single (nd_arr x) (nd_view x) now ev) (v_itv (nd_view x)) (v_n (nd_view x))
+  = node_max_avg x now ev.
+Proof. reflexivity. Qed.
+
+Lemma quot_in_i64 a c : in_i64 a -> 0 < c -> in_i64 (Z.quot a c).
+Proof.
+  intros Ha Hc. unfold in_i64 in *.
+  destruct (Z_le_gt_dec 0 a) as [Hp|Hn].
+  - pose proof (Z.quot_pos a c Hp Hc) as H0.
+    pose proof (Z.quot_le_upper_bound a c a Hc ltac:(nia)) as H1. lia.
+  - replace a with (- (- a)) by lia. rewrite Z.quot_opp_l by lia.
+    pose proof (Z.quot_pos (- a) c ltac:(lia) Hc) as H0.
+    pose proof (Z.quot_le_upper_bound (- a) c (- a) Hc ltac:(nia)) as H1. lia.
+Qed.
+
+(* (n *BaseStatNode) AvgRT(): the int64 division cannot leave the int64 range *)
+Lemma node_AvgRT_ok x now : in_i64 (node_sum x now EvRt) ->
+  node_AvgRT (node_sum x now EvComplete) (node_sum x now EvRt) = node_avg_rt x now.
+Proof.
+  intros Hr. unfold node_AvgRT, node_avg_rt. cbv zeta.
+  destruct (node_sum x now EvComplete <=? 0) eqn:E; [reflexivity|].
+  apply Z.leb_gt in E. rewrite i64_id by (apply quot_in_i64; assumption). reflexivity.
+Qed.
+
+(* (n *BaseStatNode) MinRT(): the view's float, unchanged *)
+Lemma node_MinRT_ok x now :
+  node_MinRT (f_of_i64 (view_min_rt (nd_arr x) (nd_view x) now)) = node_min_rt x now.
+Proof. reflexivity. Qed.
+
+(* (m *SlidingWindowMetric) getQPSWithTime(now, event), getIntervalInSecond inlined *)
+Lemma view_getQPSWithTime_ok a v now ev :
+  view_getQPSWithTime (v_itv v) now (view_sum a v now ev) = view_qps a v now ev.
+Proof. reflexivity. Qed.
+
+(* (m *SlidingWindowMetric) AvgRT() *)
+Lemma view_AvgRT_ok a v now :
+  view_AvgRT (view_sum a v now EvComplete) (view_sum a v now EvRt) = view_avg_rt a v now.
+Proof. reflexivity. Qed.
+
 Print Assumptions calculateStartTime_ok.
 Print Assumptions calculateTimeIdx_ok.
 Print Assumptions isBucketDeprecated_ok.
 Print Assumptions getBucketStartRange_ok.
 Print Assumptions checkValidityForReuseStatistic_ok.
+Print Assumptions node_GetMaxAvg_ok.
+Print Assumptions node_AvgRT_ok.
+Print Assumptions node_MinRT_ok.
+Print Assumptions view_getQPSWithTime_ok.
+Print Assumptions view_AvgRT_ok.
